@@ -545,7 +545,7 @@ def run(prop, tier, seed, a, scratch, t_start):
     replays_confirmed = 0
     for (vp, cause), vs in groups.items():
         vs.sort(key=lambda v: ('lemma' in (v.get('tags') or []), len(v['script']['ops']), sum(v['model'].values()) if v['model'] else 0))
-        kf = [k for k in known if k['property'] == vp and k['cause'] == cause and not k.get('fixed')]
+        kf = [k for k in known if (k['property'] == vp or vp in k.get('also_seen_by', [])) and k['cause'] == cause and not k.get('fixed')]
         rep = vs[0]
         if rep.get('confirmed_by'):
             ok, how, cs = True, rep['confirmed_by'], rep.get('concrete', rep['script'])
